@@ -18,7 +18,7 @@ Clause map (model = `TsVerif/C20/Model.lean`, tied to crates/cli/src/test.rs by 
 * "reading a file and writing it back never merges, splits or drops tests, whatever delimiter lengths
   and suffixes" → `parse_write_roundtrip_partial` (all lists of `Simple` corrections, all delimiter
   lengths ≥ 3, all admissible suffixes); the full statement is FALSE (witnesses
-  `roundtrip_fails_delimiter_in_input`, `roundtrip_fails_untrimmed_name`) and OPEN for multi-line names; `update_preserves_simple` composes both results without a round-trip hypothesis.
+  `roundtrip_fails_delimiter_in_input`, `roundtrip_fails_untrimmed_name`); `update_preserves_simple` composes both results without a round-trip hypothesis.
 * "reading never loses bytes"                       → `splitIncl_flatten` (Roundtrip.lean).
 * "a rewritten expectation reads back as itself" → `format_normalize_spec` (all balanced token
   sequences = what the runtime prints for error-free trees; class membership measured on every run),
@@ -27,8 +27,10 @@ Clause map (model = `TsVerif/C20/Model.lean`, tied to crates/cli/src/test.rs by 
 * "every updated test whose parse is error-free passes afterwards" → `update_passes_partial` (file level:
   run-once tests, `Simple` corrections without `:cst`; via `roundtrip_built`, `normalize_section`,
   `updateEntries_all2`, `updateLang_output_pass`); the full statement inherits the falsity of `update_preserves`.
-* "a second update leaves the file byte-identical" → OPEN as a theorem (`update_idempotent`: needs the
-  attribute flags after the round trip); decided by the judge on every real file.
+* "a second update leaves the file byte-identical" → `update_idempotent_partial` (model with the committed repairs:
+  files without leading text, `Simple` corrections without `:cst`, one language per test, expectations
+  empty or balanced S-expressions, parser answers `ActOK`, attribute flags canonical for the attribute
+  text — the last three measured on every real case); decided by the judge on every real file.
 -/
 namespace TsVerif.C20
 
@@ -212,12 +214,12 @@ theorem parse_write_roundtrip (os : Str) (f : Str) :
 -/
 
 /-- `parse_write_roundtrip_partial`: for EVERY list of `Simple` corrections (delimiter lengths ≥ 3; a
-one-line name that is not blank, not a marker and not `===…`; attribute text empty or lines starting
+name of one or several lines, none blank, a marker or `===…`; attribute text empty or lines starting
 with a recognised attribute, none `===…`, no trailing white space; no line of the input
 or of the expectation starting with `===`/`---`; input not ending in CR) and every admissible
 suffix, the reader applied to the written file returns exactly one entry per correction, in order,
 with the same name, attribute text, input and delimiter lengths: nothing merges, splits or is dropped.
-Missing w.r.t. the full statement: multi-line names (OPEN), and delimiter-like
+Missing w.r.t. the full statement: delimiter-like
 lines inside inputs/expectations (FALSE there, witness below). -/
 theorem parse_write_roundtrip_partial (os suf : Str) (hse : SufOK '=' suf) (hsd : SufOK '-' suf)
     (cs : List Correction) (h : ∀ c ∈ cs, Simple c) :
@@ -251,7 +253,7 @@ def cSimple : Correction :=
 /-- Non-vacuity: a two-line input with punctuation is `Simple`; `|||` is an admissible suffix. -/
 example : Simple cSimple :=
   { hlen := by decide, dlen := by decide, attrs := Or.inl rfl, inputCr := by decide
-    name := { noNl := by decide, noDelim := by decide, nonblank := by decide, notMarker := by decide, trimmed := by decide }
+    name := { lines := by decide, trimmed := by decide }
     inputLines := by decide, outputLines := by decide }
 example : SufOK '=' ['|', '|', '|'] ∧ SufOK '-' ['|', '|', '|'] := by decide
 
@@ -261,8 +263,11 @@ def cAttrs : Correction :=
 example : Simple cAttrs :=
   { hlen := by decide, dlen := by decide, inputCr := by decide
     attrs := Or.inr ⟨⟨_, _, rfl, by decide⟩, by decide, by decide⟩
-    name := { noNl := by decide, noDelim := by decide, nonblank := by decide, notMarker := by decide, trimmed := by decide }
+    name := { lines := by decide, trimmed := by decide }
     inputLines := by decide, outputLines := by decide }
+
+/-- Non-vacuity with a name of two lines (`two` / `  lines`, the second one indented). -/
+example : NameOK ['t', 'w', 'o', '\n', ' ', ' ', 'l', 'i', 'n', 'e', 's'] := { lines := by decide, trimmed := by decide }
 
 /-- Witness for the dropped hypothesis "no `---` line in the input": a longer dash line inside the input
 is taken as the divider when the file is read back, so the input changes. -/
